@@ -154,7 +154,7 @@ Proof.
   vm_compute. reflexivity.
 Qed.
 
-(* fault-free: delete takes its pid lock, the concurrent store of the same pid then runs to its
+(* fault-free: delete takes its first pid lock, the concurrent store of the same pid then runs to its
    end, then delete finishes: both calls have returned, the store is empty, no lock is held *)
 Example C08_nonvacuous_fault_free :
   exists (sched : list nat) (c : cfg),
@@ -165,8 +165,8 @@ Example C08_nonvacuous_fault_free :
       = [Some (Exn EStoreObjectForPidAlreadyInProgress); Some (Val VUnit)] /\
     finished (map api c08_calls) c = true /\ locks (snd c) = [].
 Proof.
-  exists (1 :: 0 :: repeat 1 24).
-  destruct (exec (map api c08_calls) (1 :: 0 :: repeat 1 24)
+  exists (1 :: 0 :: repeat 1 26).
+  destruct (exec (map api c08_calls) (1 :: 0 :: repeat 1 26)
               (init_cfg (map api c08_calls) c08_w)) as [c|] eqn:E;
     [|vm_compute in E; discriminate].
   exists c. destruct c08_w_ok as [H1 H2].
@@ -178,7 +178,7 @@ Proof.
 Qed.
 Print Assumptions C08_nonvacuous_fault_free.
 
-(* with a fault: delete's read of the pid reference fails (third operation of thread 1); delete
+(* with a fault: delete's read of the pid reference fails (fourth operation of thread 1); delete
    returns OSError, the store then runs and is told the references exist; the configuration is
    reachable in the faulted semantics, nothing can move, both returned, no lock is held *)
 Example C08_nonvacuous_faulted :
@@ -188,7 +188,7 @@ Example C08_nonvacuous_faulted :
       = [Some (Exn EHashStoreRefsAlreadyExists); Some (Exn EOSError)] /\
     finished (map api c08_calls) c = true /\ locks (snd c) = [].
 Proof.
-  pose (s := [(1, false); (1, false); (1, true); (1, false)] ++ repeat (0, false) 20).
+  pose (s := [(1, false); (1, false); (1, false); (1, true); (1, false); (1, false)] ++ repeat (0, false) 20).
   destruct (gexec (map api c08_calls) s (init_cfg (map api c08_calls) c08_w)) as [c|] eqn:E;
     [|vm_compute in E; discriminate].
   exists c.
